@@ -19,6 +19,7 @@ type gen struct {
 	c     *hl.Ctx
 	r     *rand.Rand
 	n     int
+	nglob int
 	flat  bool // flat fragment only (objects with label/shape/fill, null) — the one the functional spec models
 	globs bool // programs have globs or deletions, not both (a glob is not re-applied to an object re-created
 	//            after `null` — C12's finding — which would blur the board comparison)
@@ -103,7 +104,10 @@ func (g *gen) decls(k int, depth int, classes bool) []sx.Stmt {
 				if classes && pat == "**" {
 					pat = "*" // `**` also descends into `classes` and restyles the class definitions themselves
 				}
-				out = append(out, sx.F(sx.U(pat, "style", "opacity"), sx.VS(lit(g.pick([]string{"0.3", "0.6"})))))
+				// every glob of a program is textually unique (identical glob declarations are merged by the compiler —
+				// C12's finding — which would blur the board comparison)
+				g.nglob++
+				out = append(out, sx.F(sx.U(pat, "style", "opacity"), sx.VS(lit(fmt.Sprintf("0.%d", 10+g.nglob)))))
 				g.c.Count("decl:glob")
 			}
 		default:
@@ -163,6 +167,7 @@ func (g *gen) board(lvl int, classes bool, inStep bool) []sx.Stmt {
 
 func (g *gen) prog() []sx.Stmt {
 	g.n = 0
+	g.nglob = 0
 	g.flat = g.r.Intn(3) == 0
 	g.globs = !g.flat && g.r.Intn(2) == 0
 	classes := !g.flat && g.r.Intn(2) == 0
